@@ -210,7 +210,11 @@ def find_rejection(chk, rule: str, scope, required: list[tuple[str, bool, str]],
             if _mentions(clauses, p, s):
                 problems.append((f"{'(' if s else '!('}{p})", f"rejection is conditional on forbidden literal [{d}]"))
         if strict_extra:
+            gcs = PC.guard_clauses(n)
             for c in clauses:
+                # the negation of another rejection tested earlier (a sibling guard all of whose exits are raises)
+                if any(kinds <= {"raise"} and c <= gc for gc, kinds in gcs):
+                    continue
                 if len(c) == 1:
                     lit = next(iter(c))
                     if any(M.match_text(p, lit.text) is not None and lit.pos == s for p, s, _ in required):
@@ -223,7 +227,7 @@ def find_rejection(chk, rule: str, scope, required: list[tuple[str, bool, str]],
                 else:
                     # disjunctive clause: acceptable only if allow-listed as a whole or loop/dispatch condition
                     txt = norm.fmt_cnf([c])
-                    if any(all(any(M.match_text(p, l.text) is not None and l.pos == s for p, s in allowed_extra) for l in c) for _ in [0]):
+                    if all(any(M.match_text(p, l.text) is not None and l.pos == s for p, s in list(allowed_extra) + [(p2, s2) for p2, s2, _d in required]) for l in c):
                         continue
                     problems.append((txt, "rejection is weakened by an extra (disjunctive) condition"))
         if not problems:
